@@ -20,6 +20,8 @@ Synthetic optimisation problems for the C15 / C16 checks (no Modelica front-end)
   dyn          {"a": float}           x' = -a*x + sum(u) + sum(c)     (kept linear)
   path_vars    [name]                 extra path variables (size 1)
   equidistant  bool                   value of the problem-level `equidistant` property (default False)
+  integrate_states  bool              single shooting: states and algebraic states are integrated (default False)
+  objective    {"point": [[var, t, coef]], "path": [[var, coef]]}   sum coef*state_at(var, t) + path objective sum coef*var
 
 Everything is supplied through the public interface of the class (properties / methods the
 repo documents for overriding); results for an arbitrary decision vector are obtained through
@@ -151,6 +153,23 @@ def problem_class():
         @property
         def ensemble_size(self):
             return int(self.spec.get("E", 1))
+
+        @property
+        def integrate_states(self):
+            return bool(self.spec.get("integrate_states", False))
+
+        def objective(self, ensemble_member):
+            # point terms  sum coef * state_at(var, t)
+            e = ca.MX(0)
+            for var, t, coef in self.spec.get("objective", {}).get("point", []):
+                e = e + float(coef) * self.state_at(var, float(t), ensemble_member=ensemble_member)
+            return e
+
+        def path_objective(self, ensemble_member):
+            e = ca.MX(0)
+            for var, coef in self.spec.get("objective", {}).get("path", []):
+                e = e + float(coef) * self.state(var)
+            return e
 
         @property
         def equidistant(self):
